@@ -110,6 +110,9 @@ func c15(r *hx.Run) {
 	statuses := []uint64{0, inflight, qerr, unavail, 5, 1<<63 + 5}
 	outs := []uint32{0, 1, 5006, labi.ReqBufSize - 1, labi.ReqBufSize, labi.ReqBufSize + 1, 1<<32 - 1}
 	bufKinds := []string{"pat", "left", "rand"}
+	// results handed to earlier callers: the slice as returned and a private copy taken at return time
+	type keptRes struct{ got, copyAtReturn []byte }
+	var kept []keptRes
 	runDev := func(s devScript, bufSpec string, rd [64]byte, repSpec string) {
 		d := &scriptedDev{s: s}
 		var got []byte
@@ -175,6 +178,19 @@ func c15(r *hx.Run) {
 			}
 		} else if res != "panic" && gerr == nil {
 			add(fmt.Sprintf("device outcome is a failure (status=%d outlen=%d) but client returned %d bytes and no error", s.status, s.outLen, len(got)))
+		}
+		// "exactly the bytes the device wrote" must stay true of a result after later fetches (no shared request buffer)
+		for _, k := range kept {
+			if !bytes.Equal(k.got, k.copyAtReturn) {
+				add("a quote returned by an earlier call changed when this call ran: results share memory with a later request")
+				copy(k.copyAtReturn, k.got)
+			}
+		}
+		if gerr == nil && res != "panic" && len(got) > 0 {
+			kept = append(kept, keptRes{got, append([]byte{}, got...)})
+			if len(kept) > 6 {
+				kept = kept[1:]
+			}
 		}
 		key := fmt.Sprintf("%v|%d|%v|%d|%d|%d|%s", s.repErr, s.repRes, s.qErr, s.qRes, s.status, s.outLen, bufSpec[:3])
 		r.Emit(line, obs, fail, key, repOK, "dev", "res:"+strings.SplitN(res, " ", 2)[0])
